@@ -158,7 +158,11 @@ class CachedStdin(StringIO):
 
 def get_cached_stdin() -> CachedStdin:
     if not isinstance(sys.stdin, CachedStdin):
-        sys.stdin = CachedStdin(sys.stdin.read())
+        try:
+            content = sys.stdin.read()
+        except (AttributeError, ValueError) as ex:  # sys.stdin is None or closed
+            raise PathError(f"Unable to read from standard input: {ex}") from ex
+        sys.stdin = CachedStdin(content)
     return sys.stdin
 
 
